@@ -5,11 +5,15 @@ import searchgen as sg
 
 NEED_RG = False
 MANIFEST = dict(
-    text="under construction",
-    note="",
-    technique="Coq proof over executable model + extracted-model/implementation correspondence + reference grep model",
+    text="Coq theorem slice_slow_eq_ref: SliceByLine::run on the slow line path equals the grep reference model (events in "
+         "input order, context kinds, separators, 1-based line numbers, byte offsets, final byte count) for every input, "
+         "configuration and matcher, by a simulation invariant over the real bookkeeping fields. The fast path and the "
+         "other strategies are tied to the same reference by model=code=reference correspondence on generated cases "
+         "(fast-path theorem in progress). D10 fixed.",
+    note="trusted: Coq kernel, extraction, driver, harness; the reference (Spec/GrepSpec.v grep_ref) is an executable one-pass "
+         "specification; its declarative window characterisation is not yet proved",
+    technique="Coq simulation proof + extracted-model/implementation/reference correspondence",
     design="§7 C03")
-del MANIFEST  # not claimed until the theorems are in
 
 
 def features(case, events):
